@@ -177,7 +177,7 @@ def _layout(ctx, sws):
     def mentions_len_of(v, fld):
         return v is not None and any(y[0] == "call" and str(y[1]).endswith("::len") for y in subterms(v)) and any(
             y[0] == "field" and y[2] == fld for y in subterms(v))
-    exp = {0: ("id", lambda v: v[0] == "field" and v[2] == "qid"), 4: ("qdcount", lambda v: v == ("const", 1)),
+    exp = {0: ("id", lambda v: v[0] == "field" and v[2] == "qid"), 4: ("qdcount", lambda v: is_const(v, 1)),
            6: ("ancount", lambda v: mentions_len_of(v, "answer")), 8: ("nscount", lambda v: mentions_len_of(v, "nameserver")),
            10: ("arcount", lambda v: mentions_len_of(v, "additional"))}
     for o, (name, pred) in exp.items():
@@ -289,7 +289,7 @@ def _layout(ctx, sws):
         n = callee_name(tm) or ""
         if n.endswith("IndexMut<I>>::index_mut") and on_ret(tm, bb):
             a = norm(T.call_args(bb)[1])
-            if a == ("const", 2):
+            if is_const(a, 2):
                 # *_p = BitOr(*_p, 0x02) in the successor
                 nb = tm["t"]
                 for s2 in b.blocks[nb]["stmts"] if nb is not None else []:
@@ -407,6 +407,6 @@ def _r5(ctx, cg, sws, fam):
         for bb, tm in b.calls():
             if callee_name(tm) == sws:
                 a = norm(T.call_args(bb)[1])
-                okk = (a[0] == "const" and a[1] >= 512) or (a[0] == "call" and str(a[1]).endswith("cmp::max") and any(norm(x) == ("const", 512) for x in a[2]))
+                okk = (a[0] == "const" and a[1] >= 512) or (a[0] == "call" and str(a[1]).endswith("cmp::max") and any(is_const(norm(x), 512) for x in a[2]))
                 ctx.check(okk, "R5", "limit-floor-512:%s" % fid.split("::")[-1], ctx.where(b, tm["sp"]),
                           "limits below 512 hit the serialiser's assertion and limits floored higher overrun small clients (is %s)" % show(a)[:80])
